@@ -38,6 +38,7 @@ structure State where
   entries : List Entry := []        -- working log of the current base, oldest first
   initial : List (Nat × Nat) := []  -- INITIAL: (line number, session), bare line numbers
   notes : List Note := []           -- notes of the commits made so far, newest first
+  log : List (List Nat × List Nat) := []   -- (content, parent content) of those commits, newest first
   deriving Repr
 
 /-- author of the line with id `y` according to a snapshot (first occurrence) -/
@@ -111,7 +112,7 @@ def commitStep (st : State) : State :=
   let pending : List (Nat × Nat) := (enum1 st.work).filterMap (fun (i, y) =>
     if st.index.contains y then none else (author y).map (fun s => (i, s)))
   { head := st.index, index := st.index, work := st.work, entries := [], initial := pending,
-    notes := note :: st.notes }
+    notes := note :: st.notes, log := (st.index, st.head) :: st.log }
 
 def step (st : State) : Op → State
   | .humanEdit ys => { st with work := ys }
@@ -124,5 +125,28 @@ def step (st : State) : Op → State
   | .commit => commitStep st
 
 def run (st : State) (ops : List Op) : State := ops.foldl step st
+
+/-! ### blame over the (linear) history of commits made so far -/
+
+/-- position (1-based) of the first occurrence of `y` -/
+def posOf (y : Nat) : List Nat → Option Nat
+  | [] => none
+  | x :: xs => if x = y then some 1 else (posOf y xs).map (· + 1)
+
+/-- the session a note credits line `i` with -/
+def noteAuthor (note : Note) (i : Nat) : Author :=
+  (note.find? (fun p => p.1 = i)).map (·.2)
+
+/-- `git blame` + overlay at content-id level: the commit that introduced `y` (its content has `y`,
+    its parent's does not) decides through its note at `y`'s line number there. Commits are scanned
+    newest first; an id never returns once removed, so at most one commit introduces it. -/
+def blame : List (List Nat × List Nat) → List Note → Nat → Author
+  | (content, parent) :: log, note :: notes, y =>
+    if content.contains y && !parent.contains y then
+      match posOf y content with
+      | some i => noteAuthor note i
+      | none => none
+    else blame log notes y
+  | _, _, _ => none
 
 end GitAi.Sys
